@@ -17,6 +17,7 @@ import (
 	"strings"
 	"unicode/utf8"
 
+	"github.com/tidwall/tile38/verifapi"
 	"verifharness/internal/srv"
 )
 
@@ -226,9 +227,21 @@ func cmpPayload(m map[string]json.RawMessage, v srv.Value) (string, bool) {
 }
 
 func cmpGet(args []string, j jdoc, rv srv.Value) string {
+	why := cmpGetAs(args, j, rv, hasWord(args, "WITHFIELDS"))
+	if why != "" && !strings.EqualFold(args[0], "get") && hasWord(args, "WITHFIELDS") {
+		// SET / FSET: the word may be a key, an id, a field name or a field value (e.g. FSET k id null
+		// RETURN POINT WITHFIELDS RETURN stores the fields null=RETURN and POINT=WITHFIELDS), not the option
+		if cmpGetAs(args, j, rv, false) == "" {
+			return ""
+		}
+	}
+	return why
+}
+
+func cmpGetAs(args []string, j jdoc, rv srv.Value, withfields bool) string {
 	payload := rv
 	var rfields map[string]string
-	if hasWord(args, "WITHFIELDS") {
+	if withfields {
 		if rv.Kind != '*' || len(rv.Array) < 1 || len(rv.Array) > 2 {
 			return "WITHFIELDS: RESP reply is not [object, fields]"
 		}
@@ -260,7 +273,10 @@ func cmpGet(args []string, j jdoc, rv srv.Value) string {
 	if rfields == nil {
 		rfields = map[string]string{}
 	}
-	if !hasWord(args, "WITHFIELDS") {
+	if !withfields {
+		if len(jf) > 0 {
+			return "JSON reply carries fields, RESP reply does not"
+		}
 		return ""
 	}
 	return mapsEq(jf, rfields)
@@ -378,6 +394,10 @@ func cmpScan(args []string, j jdoc, rv srv.Value) string {
 			}
 		}
 		if why := mapsEq(jf, rf); why != "" {
+			if jsonPathExplains(jf, rf) {
+				// open finding C17-scan-json-path-field
+				return fmt.Sprintf("json-path-field: item %d (%q): %s", i, id, why)
+			}
 			return fmt.Sprintf("item %d (%q): %s", i, id, why)
 		}
 		if d, ok := m["distance"]; ok {
@@ -389,6 +409,67 @@ func cmpScan(args []string, j jdoc, rv srv.Value) string {
 		}
 	}
 	return ""
+}
+
+// jsonPathExplains: every difference between the fields a JSON item shows (jf) and the fields the
+// RESP item lists (rf) is a dotted name j.p whose JSON value is what gjson finds at p inside the
+// stored JSON-valued field j (field.List.Get resolves the path before the stored name).
+func jsonPathExplains(jf, rf map[string]string) bool {
+	n := 0
+	for k, v := range jf {
+		if w, ok := rf[k]; ok && w == v {
+			continue
+		}
+		dot := strings.IndexByte(k, '.')
+		if dot < 0 {
+			return false
+		}
+		// rf holds UTF-8-sanitised names and data; the finding needs a plain JSON field anyway
+		jv, ok := rf[k[:dot]]
+		if !ok {
+			return false
+		}
+		if kind, _ := verifapi.KsValueOf(jv); kind != 5 {
+			return false
+		}
+		exists, kind, str, _ := verifapi.KsGjsonGet(jv, k[dot+1:])
+		if !exists {
+			return false
+		}
+		switch kind {
+		case 0:
+			str = "null"
+		case 1:
+			str = "false"
+		case 4:
+			str = "true"
+		}
+		if fixUTF8(str) != v {
+			return false
+		}
+		n++
+	}
+	for k, w := range rf {
+		if v, ok := jf[k]; !ok {
+			// a stored non-zero field the JSON item does not show: only when the JSON path shadows it with 0
+			dot := strings.IndexByte(k, '.')
+			if dot < 0 {
+				return false
+			}
+			jv, has := rf[k[:dot]]
+			if !has {
+				return false
+			}
+			exists, _, str, _ := verifapi.KsGjsonGet(jv, k[dot+1:])
+			if !exists || str != "0" {
+				return false
+			}
+			n++
+		} else if v != w && strings.IndexByte(k, '.') < 0 {
+			return false
+		}
+	}
+	return n > 0
 }
 
 // script results: ConvertToJSON vs ConvertToRESP
